@@ -5,7 +5,7 @@ GUARDED = ("g0", "g1", "g1ie")
 
 # facet letters generated per property (K = canaries, always on)
 FACETS = {
-    "C01": "CK",
+    "C01": "CVK",
     "C02": "SK",
     "C03": "SERK",
     "C04": "VFK",
@@ -41,7 +41,9 @@ def clause_props(K, clause, cfg):
     elif clause.startswith("E."):
         out = set(K.eprops)
     elif clause == "V.inv":
-        out = {"C04"} | (set(K.vprops) - {"C05"})
+        # value = wire expression on the witness: C04 itself, and the glue of the compositional argument for C01 (every
+        # contract ASSUMES it of its operands, so every producer has to establish it of its results)
+        out = {"C04"} | (set(K.vprops) - {"C05"}) | ({"C01"} if ("C01" in K.cprops and mode not in ("ie", "g1ie")) else set())
     elif clause.startswith(("V.", "R.")):
         out = set(K.vprops)
     elif clause.startswith(("T.", "N.")):
